@@ -88,6 +88,14 @@ pub fn enum_anon(_seed: u64) -> Vec<String> {
         out.push(format!("ss={};a={};b={}", ser_ss(&ss), ser(a), ser(b)));
         out.push(format!("ss={};a={};b={}", ser_ss(&ss), ser(b), ser(a)));
     } }
+    // the same list patterns, built by the engine itself: the documented constructor and the renaming of a clause
+    // must hand unify a list in which `$_` still stands for "any rest"
+    for (a, b) in &nested {
+        if matches!(a, SLinkedList{..}) {
+            out.push(format!("ss=;a={};b={};ctor=mll", ser(a), ser(b)));
+            out.push(format!("ss=;a={};b={};ctor=rename", ser(a), ser(b)));
+        }
+    }
     for ss in prior_sets() { for t in small_terms() {
         out.push(format!("ss={};a={};b=_", ser_ss(&ss), ser(&t)));
         out.push(format!("ss={};a=_;b={}", ser_ss(&ss), ser(&t)));
@@ -96,10 +104,24 @@ pub fn enum_anon(_seed: u64) -> Vec<String> {
 }
 pub fn check_anon(case: &str) -> Result<(), String> {
     let ss = Rc::new(de_ss(field(case, "ss")));
-    let a = de(field(case, "a"));
+    let mut a = de(field(case, "a"));
     let b = de(field(case, "b"));
+    match field(case, "ctor") {
+        "mll" => {
+            // rebuild the list with the documented constructor: elements, then the tail after the bar
+            let mut ts = elems(&a);
+            let vbar = match tail_of(&a) { Some(t) => { ts.push(t); true }, None => false };
+            if !ts.is_empty() { a = make_linked_list(vbar, ts); }
+        },
+        "rename" => {
+            set_var_id(40);
+            let mut vars = VarMap::new();
+            a = a.recreate_variables(&mut vars);
+        },
+        _ => {},
+    }
     match a.unify(&b, &ss) {
-        None => Err("unification with $_ failed".into()),
+        None => Err(format!("unification with $_ failed ({} = {})", a, b)),
         Some(r) => if same_ss(&r, &ss) { Ok(()) } else { Err(format!("substitution changed: {} -> {}", ser_ss(&ss), ser_ss(&r))) },
     }
 }
